@@ -79,6 +79,7 @@ func c13Run(c *ev.Ctx, sc *c13Scenario) func() (func(*vsched.Sched), func(), fun
 			vhttp.WaitAccepting(proverAddr)
 			vhttp.WaitAccepting(metricsAddr)
 			done := vsched.NewChan[int](len(sc.Reqs))
+			vhttp.Net().HoldConns(len(sc.Reqs))
 			vsched.SetExplore(true)
 			for i := range sc.Reqs {
 				i := i
@@ -88,6 +89,7 @@ func c13Run(c *ev.Ctx, sc *c13Scenario) func() (func(*vsched.Sched), func(), fun
 					done.Send(i)
 				})
 			}
+				vhttp.Net().AwaitHeld()
 			for range sc.Reqs {
 				done.Recv()
 			}
